@@ -1,0 +1,28 @@
+//go:build verif
+
+package packet
+
+import "time"
+
+// VerifReset restores the package level state to its initial value.
+// Verification hook: only compiled with -tags verif.
+func VerifReset() {
+	icmpTable.Lock()
+	icmpTable.table = make(map[uint16]*icmpEntry)
+	icmpTable.id = 1
+	icmpTable.Unlock()
+	stpCount = 0
+	stpNextLog = time.Time{}
+}
+
+// VerifICMPWaiters returns the number of pending ping waiters.
+func VerifICMPWaiters() int {
+	icmpTable.Lock()
+	defer icmpTable.Unlock()
+	return len(icmpTable.table)
+}
+
+// VerifPurge runs the time parameterised purge synchronously.
+func (h *Session) VerifPurge(now time.Time) error {
+	return h.purge(now)
+}
